@@ -138,11 +138,11 @@ def build(env, spec):
             tdl = dl if tp.get("deadline") is None else val(env, tp["deadline"], f"dl_{tname}", 0, 4 * T)
             # `operator` / `timestamp`: successive invocations of one operator share the Task name (TaskLoader-style graphs)
             t = Task(name=tp.get("operator", tname), task_graph=gname, job=job, deadline=ET(tdl), timestamp=tp.get("timestamp", 0),
-                     release_time=ET(trel), _logger=NULL)
+                     release_time=(EventTime(trel, EventTime.Unit.MS) if (g.get("release_unit") == "MS" and is_src) else ET(trel)), _logger=NULL)
             tmap[tname] = t
             W.tasks[tname] = t
             W.graph_of[tname] = gname
-            W.task_params[tname] = {"strategies": sparams, "strat_objs": strats, "release": trel, "deadline": tdl,
+            W.task_params[tname] = {"strategies": sparams, "strat_objs": strats, "release": (trel * 1000 if (g.get("release_unit") == "MS" and is_src) else trel), "deadline": tdl,
                                     "parents": parents[tname], "children": [b for a, b in g["edges"] if a == tname],
                                     "conditional": tname in cond, "terminal": tname in g.get("terminal", []),
                                     "prob": probs.get(tname, 1.0), "source": is_src, "model": tp.get("model")}
